@@ -959,7 +959,7 @@ switch learns B's port and returns the reply through A's port, A learns B; then 
 switched (no flood) and the reply is counted.  For every fuel ≥ 20. -/
 theorem C08_permitted_exchange_succeeds_cold_lan (fuel : Nat) (st : St) (a b s pa pb : Nat) (ndA ndB ndS : Node)
     (ifA ifB sa sb : Iface) (h : ColdLan st a b s pa pb ndA ndB ndS ifA ifB sa sb)
-    (hrep : replyCount ndA.replies st.nextId = none) :
+    (hrep : replyCount ndA.replies st.nextId = none) (hlo : isLoopback ifB.ip = false) :
     (ping (fuel + 20) st a ifB.ip 1).2 = true := by
   generalize hst0 : ({ st with nextId := st.nextId + 1 } : St) = st0
   have h0 : ColdLan st0 a b s pa pb ndA ndB ndS ifA ifB sa sb := by rw [← hst0]; exact h.withNextId _
@@ -1028,7 +1028,7 @@ theorem C08_permitted_exchange_succeeds_cold_lan (fuel : Nat) (st : St) (a b s p
   -- `ping` reads the counter
   have hro : resolveOut (fuel + 20) st0 a ifB.ip = (st0, some 0) := by simp only [resolveOut, h0.nodeA, hfe]
   unfold ping
-  simp only [h.nodeA, h.onA, Bool.not_true, Bool.false_eq_true, if_false, List.range_one, List.foldl_cons, List.foldl_nil, hst0, hro,
+  simp only [h.nodeA, h.onA, hlo, Bool.not_true, Bool.false_eq_true, if_false, List.range_one, List.foldl_cons, List.foldl_nil, hst0, hro,
     hcore, Bool.true_and]
   rw [addArp_replies, replyCount_bump ndA.replies st.nextId hrep]
   rfl
@@ -1082,7 +1082,7 @@ theorem clLan : ColdLan clSt 0 2 1 0 1 clHostA clHostB clSwitch clA clB clS0 clS
 
 /-- the theorem applies (cold caches, a third host on the switch, a stale switch entry for B on the wrong port) … -/
 example : (ping 20 clSt 0 clB.ip 1).2 = true :=
-  C08_permitted_exchange_succeeds_cold_lan 0 clSt 0 2 1 0 1 clHostA clHostB clSwitch clA clB clS0 clS1 clLan rfl
+  C08_permitted_exchange_succeeds_cold_lan 0 clSt 0 2 1 0 1 clHostA clHostB clSwitch clA clB clS0 clS1 clLan rfl (by decide)
 /-- … and agrees with evaluation; with the NIC of B disabled the same ping fails (the hypotheses matter). -/
 example : (ping 20 clSt 0 clB.ip 1).2 = true := by decide +kernel
 example : (ping 200 { clSt with nodes := [clHostA, clSwitch, { clHostB with ifaces := [{ clB with enabled := false }] }, clHostC] }
